@@ -95,6 +95,11 @@ func newOnce(x *vs.Exec, behaviour string) *onceState {
 	if b, ok := strings.CutPrefix(behaviour, "slow-"); ok {
 		behaviour, slowLaunch = b, true
 	}
+	// "noid-<behaviour>": the runner has no identifier for its plugin (ID() == "")
+	noID := false
+	if b, ok := strings.CutPrefix(behaviour, "noid-"); ok {
+		behaviour, noID = b, true
+	}
 	switch behaviour {
 	case "netrpc":
 		script = servePlugin(serveOpts{proto: "netrpc", plugins: ps, tcpAddr: tcp, relSock: relSock})
@@ -111,6 +116,7 @@ func newOnce(x *vs.Exec, behaviour string) *onceState {
 		st.rfErr = true
 	}
 	st.r = newScriptRunner(x, script)
+	st.r.emptyID = noID
 	if slowLaunch {
 		st.r.startDelay = 5 * time.Second // longer than the client's StartTimeout (4 s)
 	}
@@ -344,14 +350,14 @@ func init() {
 			}
 			var out []explore.Params
 			var rec func(prefix []string)
-			behs := []string{"netrpc", "grpc", "badline", "badproto", "silent", "rferr", "re-netrpc", "re-grpc", "tre-netrpc", "tre-grpc", "wild4-netrpc", "wild6-grpc", "slow-netrpc", "slow-grpc", "rel-netrpc", "rel-grpc", "xre-netrpc", "xre-grpc"}
+			behs := []string{"netrpc", "grpc", "badline", "badproto", "silent", "rferr", "re-netrpc", "re-grpc", "tre-netrpc", "tre-grpc", "wild4-netrpc", "wild6-grpc", "slow-netrpc", "slow-grpc", "rel-netrpc", "rel-grpc", "xre-netrpc", "xre-grpc", "noid-badline", "noid-badproto", "noid-silent", "noid-netrpc", "noid-grpc"}
 			rec = func(prefix []string) {
 				if len(prefix) > 0 {
 					for _, b := range behs {
 						if b == "silent" && len(prefix) > 3 {
 							continue // each failing Start costs the full timeout; keep the silent plugin to short histories
 						}
-						if (strings.Contains(b, "re-") || strings.HasPrefix(b, "wild") || strings.HasPrefix(b, "slow-") || strings.HasPrefix(b, "rel-")) && len(prefix) > 4 {
+						if (strings.Contains(b, "re-") || strings.HasPrefix(b, "wild") || strings.HasPrefix(b, "slow-") || strings.HasPrefix(b, "rel-") || strings.HasPrefix(b, "noid-")) && len(prefix) > 4 {
 							continue
 						}
 						out = append(out, explore.Params{"beh": b, "seq": strings.Join(prefix, ",")})
